@@ -110,25 +110,10 @@ func innermostLoop(fn *ssa.Function, b *ssa.BasicBlock) *ssa.BasicBlock {
 	var best *ssa.BasicBlock
 	bestN := -1
 	for h, body := range core.Loops(fn) {
-		// the header of a test-first loop belongs to the surrounding code; a
-		// rotated loop (go/ssa's `for i := range n`: test at the bottom) starts
-		// with body code in its header
-		rotated := false
-		if b == h {
-			rotated = true
-			if _, isIf := h.Instrs[len(h.Instrs)-1].(*ssa.If); isIf {
-				for _, s := range h.Succs {
-					if !body[s] {
-						rotated = false
-					}
-					if s == h {
-						rotated = true
-						break
-					}
-				}
-			}
-		}
-		if body[b] && (b != h || rotated) && (bestN < 0 || len(body) < bestN) {
+		// whatever sits in a loop's header runs once per iteration too (the
+		// condition of a test-first loop, the first statements of a loop go/ssa
+		// has rotated or of a `for { ... }` loop)
+		if body[b] && (bestN < 0 || len(body) < bestN) {
 			best, bestN = h, len(body)
 		}
 	}
@@ -589,6 +574,65 @@ func clientHelloGrammar(p *core.Prog, r *core.Run, rule string) {
 	r.Check(rule, "parseClientHello:grammar", ptFlat == clientHelloBody, p.Pos(m.parseCH.Pos()), "parseClientHello reads: %s (expected: %s)", ptFlat, clientHelloBody)
 	r.Check(rule, "parse≍marshal", strings.Contains(bt, ptFlat), p.Pos(m.parseCH.Pos()), "every field read by the parser is written back by marshal(false) at the same position, with the same width, nesting and binding")
 	r.Tables[rule+".tokens"] = map[string]string{"marshal": bt, "parse": ptFlat}
+
+	// no part of the structure is optional: every field of the hello is written
+	// whenever marshal runs and read whenever the parser gets that far. (A block
+	// that is skipped when empty - the extensions of a hello that has none -
+	// changes the bytes of such a hello on its way through.)
+	loops := map[*ssa.Function]map[*ssa.BasicBlock]map[*ssa.BasicBlock]bool{}
+	loopGuard := func(fn *ssa.Function, b *ssa.BasicBlock, g core.Guard) bool {
+		if g.If == nil {
+			return false
+		}
+		ls, ok := loops[fn]
+		if !ok {
+			ls = core.Loops(fn)
+			loops[fn] = ls
+		}
+		for h, body := range ls {
+			if body[b] && (g.If.Block() == h || body[g.If.Block()] && func() bool {
+				// a test inside the loop that leaves it (bottom-tested loops)
+				for _, s := range g.If.Block().Succs {
+					if !body[s] {
+						return true
+					}
+				}
+				return false
+			}()) {
+				return true
+			}
+		}
+		return false
+	}
+	nOpt := 0
+	for _, l := range core.Closures(m.marshal) {
+		for _, s := range callSites(p, []*ssa.Function{l}, `\(\*cryptobyte\.Builder\)\.Add.*`) {
+			for _, g := range core.Guards(s.Block()) {
+				f := p.FactOf(g)
+				if loopGuard(l, s.Block(), g) {
+					continue
+				}
+				// the aad variant differs inside the ECH extension only (C02.A6)
+				if f.L.Any(func(e *core.Expr) bool { return e.Val == ssa.Value(aadP) }) || f.L.Op == "field" && f.L.Name == "Type" || f.L.Op == "bin" && f.L.Name == "-" {
+					continue
+				}
+				nOpt++
+				r.Check(rule, fmt.Sprintf("marshal:unconditional#%d", nOpt), false, p.InstrPos(s.Instr), "%s is written only under %q: that part of the hello is optional on the way out", s.X.Name, f.String())
+			}
+		}
+	}
+	for _, s := range callSites(p, []*ssa.Function{m.parseCH}, `\(\*cryptobyte\.String\)\.(Read.*|Skip|Copy.*)`) {
+		for _, g := range core.Guards(s.Block()) {
+			f := p.FactOf(g)
+			isEmptyTest := f.L.Op == "call" && f.L.Name == "(cryptobyte.String).Empty" || f.L.Op == "call" && f.L.Name == "len" && f.R != nil && f.R.Name == "0" && len(f.L.Args) == 1 && f.L.Args[0].Val != nil && strings.HasSuffix(f.L.Args[0].Val.Type().String(), "cryptobyte.String")
+			if !isEmptyTest || loopGuard(m.parseCH, s.Block(), g) {
+				continue
+			}
+			nOpt++
+			r.Check(rule, fmt.Sprintf("parse:unconditional#%d", nOpt), false, p.InstrPos(s.Instr), "%s is read only under %q: that part of the hello is optional on the way in", s.X.Name, f.String())
+		}
+	}
+	r.Check(rule, "structure:no-optional-part", nOpt == 0, p.Pos(m.marshal.Pos()), "every field of the hello is written by marshal and read by the parser unconditionally (%d conditional sites)", nOpt)
 }
 
 var _ = fmt.Sprintf
